@@ -61,6 +61,12 @@ impl MemOffset {
     fn is_null(self) -> bool {
         self.0 == u32::MAX
     }
+
+    /// Verification inspector: the raw 32-bit offset.
+    #[cfg(zipora_verif)]
+    pub fn verif_raw(self) -> u32 {
+        self.0
+    }
 }
 
 /// Configuration for the 5-level memory pool system
@@ -556,6 +562,24 @@ impl MutexBasedPool {
         Ok(offset)
     }
     
+    /// Verification inspector: `(head, count)` of the fast bin serving `size`.
+    #[cfg(zipora_verif)]
+    pub fn verif_bin_state(&self, size: usize) -> Option<(u32, u32)> {
+        let aligned = self.align_up(size);
+        if aligned == 0 { return None; }
+        let idx = (aligned / self.config.alignment) - 1;
+        let h = self.free_lists.get(idx)?.lock().ok()?;
+        Some((h.head.0, h.count))
+    }
+
+    /// Verification inspector: the free-list link word stored at `offset`.
+    #[cfg(zipora_verif)]
+    pub fn verif_read_link(&self, offset: u32) -> Option<u32> {
+        let memory = self.memory.lock().ok()?;
+        if offset as usize + 4 > memory.capacity { return None; }
+        Some(unsafe { *(memory.offset_ptr(offset as usize) as *const u32) })
+    }
+
     fn alloc_from_skip_list(&self, size: usize) -> Result<MemOffset> {
         // For now, allocate from end
         let mut memory = self.memory.lock()
@@ -692,20 +716,30 @@ impl LockFreePool {
             
             // Lock-free compare-exchange loop
             loop {
+                #[cfg(zipora_verif)]
+                crate::memory::verif_sched::point(crate::memory::verif_sched::FL_POP_LOAD);
                 let current_head = head.head.load(Ordering::Acquire);
+                #[cfg(zipora_verif)]
+                crate::memory::verif_sched::note(crate::memory::verif_sched::FL_POP_LOAD, current_head as u64);
                 if current_head == u32::MAX {
                     break; // No free blocks
                 }
                 
                 // Get next pointer from the free block
+                #[cfg(zipora_verif)]
+                crate::memory::verif_sched::point(crate::memory::verif_sched::FL_POP_NEXT);
                 let next_head = unsafe {
                     let memory = self.memory.lock()
                         .map_err(|e| ZiporaError::resource_busy(format!("Memory mutex poisoned: {}", e)))?;
                     let ptr = memory.offset_ptr(current_head as usize) as *const u32;
                     *ptr
                 };
+                #[cfg(zipora_verif)]
+                crate::memory::verif_sched::note(crate::memory::verif_sched::FL_POP_NEXT, next_head as u64);
                 
                 // Try to update head atomically
+                #[cfg(zipora_verif)]
+                crate::memory::verif_sched::point(crate::memory::verif_sched::FL_POP_CAS);
                 match head.head.compare_exchange_weak(
                     current_head,
                     next_head,
@@ -713,11 +747,18 @@ impl LockFreePool {
                     Ordering::Relaxed
                 ) {
                     Ok(_) => {
+                        #[cfg(zipora_verif)]
+                        {
+                            crate::memory::verif_sched::note(crate::memory::verif_sched::FL_POP_CAS, 1);
+                            crate::memory::verif_sched::point(crate::memory::verif_sched::FL_POP_COUNT);
+                        }
                         head.count.fetch_sub(1, Ordering::Relaxed);
                         self.fragment_size.fetch_sub(size, Ordering::Relaxed);
                         return Ok(MemOffset::new(current_head as usize));
                     }
                     Err(_) => {
+                        #[cfg(zipora_verif)]
+                        crate::memory::verif_sched::note(crate::memory::verif_sched::FL_POP_CAS, 0);
                         // Retry loop
                         std::hint::spin_loop();
                     }
@@ -726,6 +767,8 @@ impl LockFreePool {
         }
 
         // Fall back to mutex allocation
+        #[cfg(zipora_verif)]
+        crate::memory::verif_sched::point(crate::memory::verif_sched::FL_BUMP);
         let mut memory = self.memory.lock()
             .map_err(|e| ZiporaError::resource_busy(format!("Memory mutex poisoned: {}", e)))?;
         if !memory.can_allocate(size) {
@@ -734,6 +777,8 @@ impl LockFreePool {
 
         let offset = MemOffset::new(memory.size);
         memory.size += size;
+        #[cfg(zipora_verif)]
+        crate::memory::verif_sched::note(crate::memory::verif_sched::FL_BUMP, offset.0 as u64);
         Ok(offset)
     }
 
@@ -745,9 +790,15 @@ impl LockFreePool {
             
             // Lock-free insertion
             loop {
+                #[cfg(zipora_verif)]
+                crate::memory::verif_sched::point(crate::memory::verif_sched::FL_PUSH_LOAD);
                 let current_head = head.head.load(Ordering::Acquire);
+                #[cfg(zipora_verif)]
+                crate::memory::verif_sched::note(crate::memory::verif_sched::FL_PUSH_LOAD, current_head as u64);
 
                 // Write next pointer into freed block
+                #[cfg(zipora_verif)]
+                crate::memory::verif_sched::point(crate::memory::verif_sched::FL_PUSH_NEXT);
                 unsafe {
                     let memory = self.memory.lock()
                         .map_err(|e| ZiporaError::resource_busy(format!("Memory mutex poisoned: {}", e)))?;
@@ -756,6 +807,8 @@ impl LockFreePool {
                 }
                 
                 // Try to update head atomically
+                #[cfg(zipora_verif)]
+                crate::memory::verif_sched::point(crate::memory::verif_sched::FL_PUSH_CAS);
                 match head.head.compare_exchange_weak(
                     current_head,
                     offset.0,
@@ -763,11 +816,18 @@ impl LockFreePool {
                     Ordering::Relaxed
                 ) {
                     Ok(_) => {
+                        #[cfg(zipora_verif)]
+                        {
+                            crate::memory::verif_sched::note(crate::memory::verif_sched::FL_PUSH_CAS, 1);
+                            crate::memory::verif_sched::point(crate::memory::verif_sched::FL_PUSH_COUNT);
+                        }
                         head.count.fetch_add(1, Ordering::Relaxed);
                         self.fragment_size.fetch_add(size, Ordering::Relaxed);
                         return Ok(());
                     }
                     Err(_) => {
+                        #[cfg(zipora_verif)]
+                        crate::memory::verif_sched::note(crate::memory::verif_sched::FL_PUSH_CAS, 0);
                         // Retry loop
                         std::hint::spin_loop();
                     }
@@ -778,6 +838,33 @@ impl LockFreePool {
         Ok(())
     }
     
+    /// Verification inspector: `(head, count)` of the fast bin serving `size`.
+    #[cfg(zipora_verif)]
+    pub fn verif_bin_state(&self, size: usize) -> Option<(u32, u32)> {
+        let aligned = self.align_up(size);
+        if aligned == 0 { return None; }
+        let idx = (aligned / self.config.alignment) - 1;
+        let h = self.free_lists.get(idx)?;
+        Some((h.head.load(Ordering::SeqCst), h.count.load(Ordering::SeqCst)))
+    }
+
+    /// Verification inspector: the free-list link word stored at `offset`.
+    #[cfg(zipora_verif)]
+    pub fn verif_read_link(&self, offset: u32) -> Option<u32> {
+        let memory = self.memory.lock().ok()?;
+        if offset as usize + 4 > memory.capacity { return None; }
+        Some(unsafe { *(memory.offset_ptr(offset as usize) as *const u32) })
+    }
+
+    /// Verification helper: write the first word of a block the caller owns.
+    #[cfg(zipora_verif)]
+    pub fn verif_write_word(&self, offset: u32, value: u32) -> bool {
+        let memory = match self.memory.lock() { Ok(m) => m, Err(_) => return false };
+        if offset as usize + 4 > memory.capacity { return false; }
+        unsafe { *(memory.offset_ptr(offset as usize) as *mut u32) = value; }
+        true
+    }
+
     fn alloc_from_huge_mutex(&self, size: usize) -> Result<MemOffset> {
         let mut memory = self.memory.lock()
             .map_err(|e| ZiporaError::resource_busy(format!("Memory mutex poisoned: {}", e)))?;
